@@ -961,6 +961,11 @@ class PrivKeyV4(PrivKey, PubKeyV4):
     def unprotect(self, passphrase):
         self.keymaterial.decrypt_keyblob(passphrase)
         del passphrase
+        # the two-octet checksum of S2K usage 255 (and of the legacy form) lets one wrong passphrase in 65536 pass; what
+        # it "decrypts" is not the secret half of this key.  The key then stays locked, as for any wrong passphrase
+        if not self.keymaterial.matches_public():
+            self.keymaterial.clear()
+            raise PGPDecryptionError("Passphrase was incorrect!")
 
     def sign(self, sigdata, hash_alg):
         return self.keymaterial.sign(sigdata, hash_alg)
